@@ -75,7 +75,7 @@ def gen_layout(rng):
         lay["folders"] = folders
     opt = lambda key, vals: lay.__setitem__(key, rng.choice(vals)) if rng.random() < .6 else None  # noqa: E731
     opt("packpos", [0, 1, 3, 17, 200])
-    opt("packcrc", [True, False])
+    opt("packcrc", [True, False, "partial"])
     opt("omit_numunpack_if_all_one", [True, False])
     opt("dummy", [None, 0, 1, 3, 130])
     opt("emptyfile_vector", ["auto", "always", "never"])
